@@ -1,5 +1,5 @@
 INIT GenInit
 NEXT Halt
-CONSTANTS MaxComps = 2 MaxParams = 3 UnkComp = {0, 2, 33, 35, 136, 255} UnkParam = {0, 8, 255}
+CONSTANTS MaxComps = 2 MaxParams = 3 UnkComp = {0, 2, 33, 35, 136, 255} UnkParam = {0, 8, 255} FullUnk = {"mix"}
 INVARIANTS EmitCase
 CHECK_DEADLOCK FALSE
